@@ -264,6 +264,21 @@ func endToEnd(c *mon.Ctx, r *gen.Rand) {
 	if h.PTSDTS == 3 && (!ph.HasDTS() || ph.DTS() != h.DTS) {
 		c.Fail("e2e:pes-dts", fmt.Sprintf("PES DTS read back %d, carried %d", ph.DTS(), h.DTS), wit{Op: "DTS", Value: h.DTS, Got: mon.Hex(hb)})
 	}
+	// the same buffer receives the next header of the stream (same fixed bytes, other times) and is decoded again
+	{
+		hbk := append([]byte{}, hb...)
+		h3 := h
+		h3.PTS, h3.DTS = (h.PTS+3003)&(1<<33-1), (h.DTS+1501)&(1<<33-1)
+		if nb3, _ := h3.Bytes(); len(nb3) == len(hb) {
+			copy(hb, nb3)
+			copy(hb[4:6], hbk[4:6]) // keep whatever PES_packet_length the first header had
+			c.Count("e2e.same_buffer_next_header")
+			if ph4, err := pes.NewPESHeader(hb); err != nil || ph4 == nil || ph4.PTS() != h3.PTS || (h.PTSDTS == 3 && ph4.DTS() != h3.DTS) {
+				c.Fail("e2e:pes-stale-times-for-next-header-in-same-buffer", fmt.Sprintf("the buffer was refilled with the next header of the stream (PTS %d, DTS %d) and decoded again; the times read back are not those", h3.PTS, h3.DTS), wit{Op: "NewPESHeader on a refilled buffer", Value: h3.PTS})
+			}
+		}
+		copy(hb, hbk)
+	}
 	// a second header decoded from its own buffer which is re-used before the first query
 	hb3 := append([]byte{}, hb...)
 	if ph3, err := pes.NewPESHeader(hb3); err == nil {
